@@ -271,6 +271,27 @@ CHECKS['C09'] = dict(
          '(unused alias objects are never validated).',
     design='5 (C09), 3.3 (translators)')
 
+CHECKS['C10'] = dict(
+    engine='h-frontend',
+    technique='Lean 4 proof (bounded inclusion recursion; the expansion stage hands unknown shapes to the schema stage '
+              'instead of failing) over the loader model whose schemas are regenerated from /repo + verdict agreement '
+              '(accept / configuration error / other exception) with the real loader + implementation-side search: '
+              'structural faults, multi-fault mutants, byte corruption, generation and compilation of every accepted '
+              'document, CLI runs',
+    text='Partial by nature. Props/C10.lean: include_recursion_bounded(_v2) (never more than 4*N+4 nested calls for N '
+         'inclusion files: no unbounded recursion), non_object_field_type_is_left_alone, null_members_are_skipped, '
+         'inherit_from_non_object_is_config_error, model_verdict_total. Not carried by any theorem: all byte strings (PyYAML, '
+         'Python I/O), absence of hangs (20 s watchdog), generation + compilation of accepted documents, and schema => shape. '
+         'Every run: every structural operator (delete, retype to each kind, out-of-range number, self reference, duplicate, '
+         'splice, non-string key, empty) at random nodes of valid barectf 2 and 3 documents and of their inclusion files, '
+         'multi-fault mutants, raw byte corruption; the real loader must answer a configuration or a configuration error '
+         'with a context path; accepted documents are generated and compiled; the CLI must exit 1 with a message, no '
+         'traceback and no file, or 0 with files; load3/load2 must give the same verdict class.',
+    note='Trusted: Lean kernel/standard axioms; the translator; the harness. Found and repaired in /repo: F13, F19, F21, F22, '
+         'F23, F24 (unsafe YAML loader), F25, F26, F27, F28 (+ F1, F2, F15, F18 shared with C09). A clock `$c-type` is a '
+         'user-supplied C type name: exempt from the compile oracle.',
+    design='5 (C10)')
+
 NOT_APPLICABLE = {
 }
 
